@@ -1,0 +1,11 @@
+//go:build verif
+// +build verif
+
+package tso
+
+import "sync/atomic"
+
+// VerifDealt returns the highest revision dealt so far (build tag `verif` only).
+func VerifDealt(t TSO) uint64 {
+	return atomic.LoadUint64(&t.(*naiveTSO).dealRevision)
+}
